@@ -105,7 +105,15 @@ def rand_value(rng):
 
 def rand_array(rng, n):
     import numpy as np
-    k = rng.randrange(5)
+    k = rng.randrange(9)
+    if k == 5:      # numbers kept as text (a run number '0007', codes): the dtype and the texts are content
+        return np.array([rng.choice(["0007", "12", "3.5", "-1e3", "1_0", " 4"]) for _ in range(n)])
+    if k == 6:
+        return np.array([rng.choice(["7", "08", 3, 2.5]) for _ in range(n)], dtype=object)
+    if k == 7:
+        return np.array([i / 3 for i in range(n)], dtype=np.float32)
+    if k == 8:
+        return np.array([i % 2 == 0 for i in range(n)]) if rng.random() < 0.5 else np.arange(n, dtype=np.int8)
     if k == 0:
         return np.array(["s%d" % i for i in range(n)])
     if k == 1:
@@ -123,6 +131,9 @@ def fill_section(rng, sec, curve, n):
         name = rng.choice(NAMES)
         if curve:
             it = CurveItem(name, rng.choice(["", "m", "US/F"]), rand_value(rng), rng.choice(["", "descr"]), rand_array(rng, n))
+            if rng.random() < 0.4:
+                # the array assigned afterwards, as read(), update_curve, las[m] = array and set_data do (not through the constructor)
+                it.data = rand_array(rng, n)
         else:
             it = HeaderItem(name, rng.choice(["", "m"]), rand_value(rng), rng.choice(["", "descr"]))
         if rng.random() < 0.3 and len(sec):
